@@ -15,7 +15,7 @@ use std::rc::Rc;
 pub static ENGINE: Engine = Engine {
     prop: "C13",
     level: "model_checking",
-    rule: "explicit-state exploration of the hidden state of BDDEnv<usize> for k=2 variables (ids 1,5): state = set of interned structures = child-closed subset of the 14 possible internal nodes (ALL such subsets are enumerated; each is built in a fresh real environment by a history of public mk_choice calls from the initial table, and the build is checked to yield exactly that table); transitions = every public operation (var, mk_const, not, 8 binary, ite, exists/all/exists_impl x variable lists <= 2, aln/amn/exn x operand lists <= 2 x n in -1..3, count_* x lists <= 1, model, infer, retain x 3 filters, clean, find, simplify, fp x 3 transformers, mk_choice with ordered arguments) on every tuple of currently interned nodes. After every transition: result == the same call in a minimal fresh environment (and == canon of the expected function where defined); every previously held handle unchanged; every table key equals its value, every child pointer of every table node and the result are Rc::ptr_eq to the table entry of the same structure; both leaves present; size() = number of keys; table only grows. Abstraction check: for every state-changing edge S -op1-> S1 the real post-history environment and build(S1) give identical results and identical successor tables for a set of follow-up operations. Long-lived histories: every sequence of 2 and 3 operations (not, all 8 binary connectives (3 at the third step in quick), exists, model, retain with both filters, clean on a pool of six functions plus earlier results; only the results are held, the operands are looked up in the table) on ONE environment, each result compared with a fresh environment, all earlier results re-inspected and the table invariants checked after every step. Big table: one environment grown to ~66 000 nodes (1 200 variables, all 65 536 functions of four variables) with sharing and recomputation checks at checkpoints. Formula level: every sequence <= 3 of 12 formulas through ParsedFormula::new_with_env on one shared environment, once with an explicit ordering and once with each parse's own default ordering, vs fresh environments (variable lists by name and id, diagram) with re-inspection of all earlier results. distinct = distinct (state, operation, operands)",
+    rule: "explicit-state exploration of the hidden state of BDDEnv<usize> for k=2 variables (ids 1,5): state = set of interned structures = child-closed subset of the 14 possible internal nodes (ALL such subsets are enumerated; each is built in a fresh real environment by a history of public mk_choice calls from the initial table, and the build is checked to yield exactly that table); transitions = every public operation (var, mk_const, not, 8 binary, ite, exists/all/exists_impl x variable lists <= 2, aln/amn/exn x operand lists <= 2 x n in -1..3, count_* x lists <= 1, model, infer, retain x 3 filters, clean, find, simplify, fp x 3 transformers, mk_choice with ordered arguments) on every tuple of currently interned nodes. After every transition: result == the same call in a minimal fresh environment (and == canon of the expected function where defined); every previously held handle unchanged; every table key equals its value, every child pointer of every table node and the result are Rc::ptr_eq to the table entry of the same structure; both leaves present; size() = number of keys; table only grows. Abstraction check: for every state-changing edge S -op1-> S1 the real post-history environment and build(S1) give identical results and identical successor tables for a set of follow-up operations. Long-lived histories: every sequence of 2 and 3 operations (not, all 8 binary connectives (3 at the third step in quick), exists, model, retain with both filters, clean on a pool of six functions plus earlier results; only the results are held, the operands are looked up in the table) on ONE environment, each result compared with a fresh environment, all earlier results re-inspected and the table invariants checked after every step. Lean environments: for EVERY function of four variables a fresh environment in which only the function (built by an ite cascade) is held, then seven operations each executed twice: same node both times, canonical, every reachable sub-diagram is the table's entry. Big table: one environment grown to ~66 000 nodes (1 200 variables, all 65 536 functions of four variables) with sharing and recomputation checks at checkpoints. Formula level: every sequence <= 3 of 12 formulas through ParsedFormula::new_with_env on one shared environment, once with an explicit ordering and once with each parse's own default ordering, vs fresh environments (variable lists by name and id, diagram) with re-inspection of all earlier results. distinct = distinct (state, operation, operands)",
     assumptions: &["state abstraction = table contents (validated by the abstraction check: equal tables have equal futures)", "k=2 for the complete exploration; larger variable sets only through the formula-level sequences"],
     max_shards: 64,
     run,
@@ -731,6 +731,84 @@ fn api_histories(ctx: &mut Ctx, w: &World, memo: &mut Memo) {
 
 
 // ---------------------------------------------------------------------------------------
+// lean environments over four variables: only what the history itself produced is alive
+
+/// For EVERY function f of four variables: a fresh environment, f built by a Shannon cascade of
+/// `ite` calls on variables (every intermediate result dropped at once, only f is held), then
+/// each of seven follow-up operations executed TWICE. The second execution must return the
+/// very node of the first (a result is independent of what was computed before and exists
+/// once), both must be the canonical diagram, f must be unchanged, and after every step each
+/// sub-diagram reachable from a held result must be the table's own entry.
+fn lean_recompute(ctx: &mut Ctx) {
+    const S4: [usize; 4] = [1, 5, 6, 12];
+    let reference = Space::<usize>::empty(&S4);
+    fn shannon(e: &BDDEnv<usize>, tt: u64, level: usize, fixed: usize) -> H {
+        if level == 4 {
+            return e.mk_const((tt >> fixed) & 1 == 1);
+        }
+        let t = shannon(e, tt, level + 1, fixed | (1 << level));
+        let f = shannon(e, tt, level + 1, fixed);
+        e.ite(e.var(S4[level]), t, f)
+    }
+    for f in 0..65536u64 {
+        if !ctx.mine(f) {
+            continue;
+        }
+        let case = json!({"part": "lean", "f": f});
+        ctx.begin_case(|| case.clone());
+        ctx.count("lean_environments_k4", 1);
+        ctx.count("distinct_by_construction", 1);
+        let key = format!("{TAG} lean environment: f={f:#x} over {S4:?} built by ite, then operations repeated");
+        let r = guarded(|| {
+            let env = BDDEnv::<usize>::new();
+            let mut c: Vec<String> = vec![];
+            let d = shannon(&env, f, 0, 0);
+            if *d != *reference.canon(f) {
+                c.push(format!("the ite cascade built {} instead of the diagram of {f:#x}", robdd::show(&d)));
+            }
+            let snap = robdd::deep_copy(&d);
+            let mut held: Vec<H> = vec![d.clone()];
+            let x = |i: usize| env.var(S4[i]);
+            let steps: Vec<(&str, Box<dyn Fn() -> H + '_>, u64)> = vec![
+                ("and(f, x3)", Box::new(|| env.and(d.clone(), x(3))), f & reference.var_tt(3)),
+                ("or(f, x3)", Box::new(|| env.or(d.clone(), x(3))), f | reference.var_tt(3)),
+                ("xor(x3, f)", Box::new(|| env.xor(x(3), d.clone())), f ^ reference.var_tt(3)),
+                ("and(x0, f)", Box::new(|| env.and(x(0), d.clone())), f & reference.var_tt(0)),
+                ("implies(f, x1)", Box::new(|| env.implies(d.clone(), x(1))), (!f & 0xffff) | reference.var_tt(1)),
+                ("not(f)", Box::new(|| env.not(d.clone())), !f & 0xffff),
+                ("exists([x2], f)", Box::new(|| env.exists(vec![S4[2]], d.clone())), crate::refl::exists_tt(4, 2, f)),
+            ];
+            for (name, op, want) in &steps {
+                let a = op();
+                let b = op();
+                if !Rc::ptr_eq(&a, &b) {
+                    c.push(format!("{name} executed twice returned two different allocations of {}", robdd::show(&a)));
+                }
+                if *a != *reference.canon(*want) || *b != *reference.canon(*want) {
+                    c.push(format!("{name} = {} / {}, expected the diagram of {want:#x}", robdd::show(&a), robdd::show(&b)));
+                }
+                held.push(a);
+                held.push(b);
+                let refs: Vec<&H> = held.iter().collect();
+                c.extend(table_invariants(&env, &refs).into_iter().map(|m| format!("after {name}: {m}")));
+                if !c.is_empty() {
+                    break;
+                }
+            }
+            if *d != *snap {
+                c.push("f itself changed".to_string());
+            }
+            c
+        });
+        match r {
+            Err(p) => ctx.violation(key, format!("panicked: {p}"), case),
+            Ok(c) if !c.is_empty() => ctx.violation(key, c.into_iter().take(3).collect::<Vec<_>>().join("; "), case),
+            Ok(_) => ctx.count("transitions", 15),
+        }
+    }
+}
+
+// ---------------------------------------------------------------------------------------
 // big tables: thresholds in the table size must not change anything
 
 /// One environment that grows to ~66 000 nodes: 1 200 variables, then all 65 536 functions
@@ -1013,6 +1091,7 @@ fn run(ctx: &mut Ctx) {
         explore_state(ctx, &w, &mut memo, mask, scope(ctx.thorough(), n), ctx.thorough() || n <= 8);
     }
     api_histories(ctx, &w, &mut memo);
+    lean_recompute(ctx);
     if ctx.shard == 0 {
         big_table_history(ctx);
     }
@@ -1022,6 +1101,15 @@ fn run(ctx: &mut Ctx) {
 fn replay(ctx: &mut Ctx, case: &Value) {
     match case["part"].as_str() {
         Some("big-table") => big_table_history(ctx),
+        Some("lean") => {
+            // re-run the single function through a one-case context that owns exactly it
+            let f = case["f"].as_u64().unwrap_or(0);
+            let mut c2 = Ctx::new("C13", ctx.tier, ctx.seed, f % 65536, 65536);
+            lean_recompute(&mut c2);
+            for v in c2.violations {
+                ctx.violation(v.key, v.what, v.replay);
+            }
+        }
         Some("history") => {
             let w = World::new();
             let mut memo = Memo { fresh: FxHashMap::default() };
